@@ -10,8 +10,9 @@ one abstract run per external signing entry point (pure; HashML-DSA x 3 pre-hash
       and rnd the generator's buffer.
   S4  ExpandMask: instance r of iteration n absorbs rho'' | IntegerToBytes(n*l + r, 2): constant
       counters in the first three (peeled) iterations, and in every later iteration kappa is
-      a multiple of l (congruence carried by the loop invariant): kappa advances by exactly l on
-      every path back to the loop head.
+      a multiple of l (congruence carried by the loop invariant) until the 16-bit counter wraps
+      (IntegerToBytes(x, 2) = x mod 2^16): kappa advances by exactly l on every path back to the
+      loop head.
   S5  c~ = first lambda/4 bytes of H(mu | w1Encode(w1)); SampleInBall absorbs the whole c~.
   S6  emit condition: at the call of sigEncode the path condition bounds the four rejection
       quantities exactly as Alg. 7 lines 23 / 28: ||z|| <= gamma1-beta-1, ||r0|| <= gamma2-beta-1,
@@ -81,11 +82,29 @@ def sign_rules(j, P, s, mode, ob):
         "instances": len(ems), "first_mismatch": bad})
     kap = [p["data"]["args"].split(" ; ")[-1].strip() for p in st.ret_probes(j, "hashing::expand_mask")]
     okk = len(kap) >= 4 and kap[:3] == ["0", str(l), str(2 * l)]
+
+    def hi_of(a):
+        if a.isdigit():
+            return int(a)
+        if a.startswith("[") and "," in a:
+            try:
+                return int(a[1:a.index("]")].split(",")[1])
+            except ValueError:
+                return None
+        return None
+
+    prev_hi = 2 * l
     for a in kap[3:]:
-        if not (a.endswith("=0(mod %d)" % l) or (a.isdigit() and int(a) % l == 0)):
+        multiple = a.endswith("=0(mod %d)" % l) or (a.isdigit() and int(a) % l == 0)
+        # the 16-bit counter wraps modulo 2^16 (IntegerToBytes(x, 2)): the congruence modulo l may only be
+        # lost in the round in which the abstract value reaches the wrap-around
+        wrapped = prev_hi is not None and prev_hi + l > 65535
+        if not (multiple or wrapped):
             okk = False
-    ob(okk, "S4:kappa-advances-by-l:%s" % ent, {"rule": "S4 kappa is 0, l, 2l in the first three iterations and a multiple of l in every later one: every path back to the loop head adds exactly l",
-                                                  "entry": j["root"], "set": s, "l": l, "kappa_per_analysed_iteration": kap[:8]})
+        h = hi_of(a)
+        prev_hi = 65535 if wrapped else h
+    ob(okk, "S4:kappa-advances-by-l:%s" % ent, {"rule": "S4 kappa is 0, l, 2l in the first three iterations and a multiple of l in every later one until the 16-bit counter wraps: every path back to the loop head adds exactly l",
+                                                  "entry": j["root"], "set": s, "l": l, "kappa_per_analysed_iteration": kap[:12]})
     # S5
     w1len = 32 * k * st.bitlen((P["q"] - 1) // (2 * P["gamma2"]) - 1)
     chs = [x for x in top if len(x["items"]) == 2 and x["items"][0]["len"] == [64, 64] and x["items"][0]["src"].endswith(".mu")]
